@@ -10,6 +10,8 @@ import GeomV.C17.ProofsNum
                        decimal expansion; `IsRNE_self`: a representable value rounds to itself).
 * `C17_numfmt_exists`, `C17_roundtrip_exists`  hence the `strconv` contract `NumFmt` is realisable on all finite float64 by a
                        formatter of `strconv`'s layout, and for it the round trip holds with no hypothesis on numbers.
+* `DigSpec`, `C17_numfmt_anydigits`, `C17_roundtrip_anydigits`, `C17_digspec_exists`  the same, universally quantified over
+                       digit generators: `DigSpec` is exactly what is still assumed of `ryuFtoaShortest`.
 -/
 namespace GeomV.Dec
 
@@ -270,5 +272,79 @@ theorem C17_roundtrip_exists : ∃ fmt : UInt64 → List Char,
       ∃ txt, encode fmt g = .ok txt ∧ parse toBits txt = .ok g := by
   obtain ⟨fmt, hnf, hshape⟩ := C17_numfmt_exists
   exact ⟨fmt, hshape, fun g hs hg hf => C17_roundtrip hnf g hs hg hf⟩
+
+end GeomV.C17
+namespace GeomV.C17
+open GeomV GeomV.C17.Ogc GeomV.Dec
+
+/-- What C17 still assumes of `strconv`'s digit generation (`ryuFtoaShortest`; `dig x = (sign, digits as a number, dp)`):
+for every finite non-zero binary64 the digits are non-zero, within the bounds of the layout model (Go: at most 17
+digits, `-323 ≤ dp ≤ 309`) and ROUND-TRIP under IEEE roundTiesToEven.  (Minimality is needed only for the
+"shortest form" remark: `C17_goG_shortest`.) -/
+structure DigSpec (dig : UInt64 → Bool × Nat × Int) : Prop where
+  pos : ∀ x, isFiniteBits x = true → x.toNat % 2 ^ 63 ≠ 0 → 0 < (dig x).2.1
+  dpBound : ∀ x, isFiniteBits x = true → x.toNat % 2 ^ 63 ≠ 0 → (dig x).2.2.natAbs ≤ 900
+  ndBound : ∀ x, isFiniteBits x = true → x.toNat % 2 ^ 63 ≠ 0 → (natDigits (dig x).2.1).length ≤ 900
+  roundtrip : ∀ x, isFiniteBits x = true → x.toNat % 2 ^ 63 ≠ 0 →
+    litToBits ⟨(dig x).1, (dig x).2.1, (dig x).2.2 - ((natDigits (dig x).2.1).length : Int)⟩ = some x
+
+/-- `strconv.AppendFloat(·, x, 'g', -1, 64)` as digit generation followed by `formatDigits` (zero: no digits, `dp = 0`) -/
+def fmtOf (dig : UInt64 → Bool × Nat × Int) (x : UInt64) : List Char :=
+  if x.toNat % 2 ^ 63 = 0 then goFmtG (decide (x.toNat / 2 ^ 63 = 1)) [] 0
+  else goFmtG (dig x).1 (natDigits (dig x).2.1) (dig x).2.2
+
+theorem zero_cases (x : UInt64) (h : x.toNat % 2 ^ 63 = 0) :
+    (x = 0 ∧ decide (x.toNat / 2 ^ 63 = 1) = false) ∨ (x = 0x8000000000000000 ∧ decide (x.toNat / 2 ^ 63 = 1) = true) := by
+  have hx64 : x.toNat < 2 ^ 64 := x.toNat_lt
+  rcases Nat.lt_or_ge x.toNat (2 ^ 63) with h' | h'
+  · left
+    have : x = 0 := by apply UInt64.toNat_inj.mp; simp; omega
+    subst this; exact ⟨rfl, by decide⟩
+  · right
+    have : x = 0x8000000000000000 := by apply UInt64.toNat_inj.mp; simp; omega
+    subst this; exact ⟨rfl, by decide⟩
+
+/-- **C17_numfmt_anydigits**: for ANY digit generator that meets `DigSpec`, digit generation followed by strconv's
+layout satisfies the contract `NumFmt` on all finite binary64 with respect to the exact OGC literal parser. -/
+theorem C17_numfmt_anydigits (dig : UInt64 → Bool × Nat × Int) (h : DigSpec dig) :
+    NumFmt isFiniteBits (fmtOf dig) toBits := by
+  have hall : ∀ x, isFiniteBits x = true → numFmtHolds (fmtOf dig) toBits x = true := by
+    intro x hfin
+    by_cases hz : x.toNat % 2 ^ 63 = 0
+    · have hf : fmtOf dig x = goFmtG (decide (x.toNat / 2 ^ 63 = 1)) [] 0 := by unfold fmtOf; rw [if_pos hz]
+      have hrw : numFmtHolds (fmtOf dig) toBits x = numFmtHolds (fun _ => fmtOf dig x) toBits x := rfl
+      rw [hrw, hf]
+      rcases zero_cases x hz with ⟨rfl, hd⟩ | ⟨rfl, hd⟩
+      · rw [hd]; exact C17_goG_zero.2.2.1
+      · rw [hd]; exact C17_goG_zero.2.2.2
+    · exact C17_goG_passes (fmtOf dig) x (dig x).1 (dig x).2.1 (dig x).2.2 (by unfold fmtOf; rw [if_neg hz])
+        (h.pos x hfin hz) (h.dpBound x hfin hz) (h.ndBound x hfin hz) (h.roundtrip x hfin hz)
+  have nf := numFmt_of_check (fmtOf dig) toBits
+  exact ⟨fun x hx => nf.nonempty x (hall x hx), fun x hx => nf.alphabet x (hall x hx),
+    fun x hx => nf.roundtrip x (hall x hx)⟩
+
+/-- **C17_roundtrip_anydigits** (main clause; the assumption about `strconv` reduced to `DigSpec`): whatever digit
+generator meets `DigSpec`, every guarded geometry with finite binary64 coordinates is encoded to a text that the
+independent OGC parser with exact IEEE conversion reads back as the same geometry. -/
+theorem C17_roundtrip_anydigits (dig : UInt64 → Bool × Nat × Int) (h : DigSpec dig) (g : Geom UInt64)
+    (hs : supported g = true) (hg : everyMemberNonEmpty g = true) (hf : allFinite isFiniteBits g = true) :
+    ∃ txt, encode (fmtOf dig) g = .ok txt ∧ parse toBits txt = .ok g :=
+  C17_roundtrip (C17_numfmt_anydigits dig h) g hs hg hf
+
+/-- `DigSpec` is satisfiable (non-vacuity of the two theorems above, for all of float64) -/
+theorem C17_digspec_exists : ∃ dig, DigSpec dig := by
+  have key : ∀ x : UInt64, ∃ d : Bool × Nat × Int, isFiniteBits x = true → x.toNat % 2 ^ 63 ≠ 0 →
+      (0 < d.2.1 ∧ d.2.2.natAbs ≤ 900 ∧ (natDigits d.2.1).length ≤ 900 ∧
+        litToBits ⟨d.1, d.2.1, d.2.2 - ((natDigits d.2.1).length : Int)⟩ = some x) := by
+    intro x
+    by_cases hfin : isFiniteBits x = true
+    · by_cases hz : x.toNat % 2 ^ 63 = 0
+      · exact ⟨(false, 0, 0), fun _ h => absurd hz h⟩
+      · obtain ⟨neg, m, dp, h1, h2, h3, h4⟩ := C17_goG_exists x hfin hz
+        exact ⟨(neg, m, dp), fun _ _ => ⟨h1, h2, h3, h4⟩⟩
+    · exact ⟨(false, 0, 0), fun h _ => absurd h hfin⟩
+  choose dig hdig using key
+  exact ⟨dig, ⟨fun x a b => (hdig x a b).1, fun x a b => (hdig x a b).2.1, fun x a b => (hdig x a b).2.2.1,
+    fun x a b => (hdig x a b).2.2.2⟩⟩
 
 end GeomV.C17
